@@ -43,6 +43,9 @@ pub struct Recorder {
     pub or: Oracles,
     pub rng: Rng,
     pub home: std::path::PathBuf,
+    /// pass ANOTHER valid index than the preselected one as selection byte (what a front-end does after the user moved the
+    /// highlight): on punctuation keys the byte is echoed back, so the reported index then differs from the computed one
+    pub alt_sel: bool,
 }
 
 pub const BASE_WORDS: &[&str] = &[
@@ -68,6 +71,7 @@ impl Recorder {
             or: Oracles::load(),
             rng: Rng(seed.wrapping_mul(0x9E3779B97F4A7C15) | 1),
             home: scratch_home("record"),
+            alt_sel: false,
         }
     }
     pub fn emit(&mut self, v: Value) {
@@ -90,7 +94,9 @@ impl Recorder {
         let mut psel = 0usize;
         for ch in text.chars() {
             let code = self.keys.code_for_char(ch).unwrap();
-            let sel = if last.kind == "full" { last.sel.min(255) as u8 } else { 0 };
+            let sel = if last.kind != "full" { 0 }
+                      else if self.alt_sel && last.cands.len() >= 2 { ((last.sel + 1) % last.cands.len()).min(255) as u8 }
+                      else { last.sel.min(255) as u8 };
             psel = sel as usize;
             last = c.key(code, 0, sel);
             if last.kind == "panic" {
@@ -404,7 +410,10 @@ impl Recorder {
                         ctxs[ci].finish();
                     }
                 }
+                // (ANSI configurations, every other text: the highlight was moved - another valid selection byte is passed)
+                self.alt_sel = cfg.ansi && (n / shards) % 2 == 0;
                 let o = self.type_text(&mut ctxs[ci], t);
+                self.alt_sel = false;
                 if o.kind == "panic" {
                     self.emit(json!({"ev": "panic", "typed": chars(t), "what": o.panic.clone().unwrap_or_default()}));
                     ctxs[ci] = Ctx::new(cfg, &self.home).unwrap();
@@ -1027,11 +1036,109 @@ impl Recorder {
         }
     }
 
+    /// C11, directed: every single fixed-method option (and the suggestion switch of both methods) flipped by an update-engine
+    /// call on an idle context, in both directions, followed by the key sequence that makes the option visible.  Emitted as
+    /// ordinary session events; Trace_Session (Focus C11) holds every later event against the configuration passed to the update.
+    fn option_flips(&mut self, shard: usize, shards: usize) {
+        if shard % shards.max(1) != 0 {
+            return;
+        }
+        let base = Cfg { layout: "synth".into(), fsug: false, english: false, smart: false, vowel: true, chandra: true, kar: true, reph: true,
+                         numpad: true, karorder: false, db: true, ..Default::default() };
+        let inv = LayoutInv::load(&base, &self.keys);
+        let key = |v: &str| inv.key_for_value(v);
+        let ka = key("\u{0995}");
+        let kp1 = self.keys.codes.iter().find(|k| k.numpad && k.entry == "Num1").map(|k| (k.code, 0u8));
+        // revealing sequences (values -> keys)
+        let seqs: Vec<(&str, Vec<Option<(u16, u8)>>)> = vec![
+            ("vowel", vec![key("\u{09BE}"), ka, key("\u{09BE}"), key("\u{09C7}")]),
+            ("chandra", vec![ka, key("\u{0981}"), key("\u{09BE}")]),
+            ("kar", vec![ka, key("\u{09C1}"), ka, key("\u{09C3}")]),
+            ("reph", vec![ka, key("\u{09B0}\u{09CD}"), ka, key("\u{09BE}"), key("\u{09B0}\u{09CD}")]),
+            ("karorder", vec![key("\u{09BF}"), ka, key("\u{09C7}"), ka]),
+            ("numpad", vec![kp1, ka, kp1]),
+            ("sug", vec![ka, key("\u{09BE}"), ka]),
+        ];
+        let cfg_json = |c: &Cfg| json!({"method": if c.is_phonetic() { "phonetic" } else { "fixed" }, "layout": c.layout, "sug": c.sug(), "numpad": c.numpad,
+                                        "o": {"vowel": c.vowel, "chandra": c.chandra, "kar": c.kar, "reph": c.reph, "karorder": c.karorder}});
+        let merge = |mut a: Value, b: Value| -> Value {
+            for (k, v) in b.as_object().unwrap() {
+                a[k] = v.clone();
+            }
+            a
+        };
+        for (flag, seq) in &seqs {
+            for start in [false, true] {
+                let set = |c: &mut Cfg, v: bool| match *flag {
+                    "vowel" => c.vowel = v,
+                    "chandra" => c.chandra = v,
+                    "kar" => c.kar = v,
+                    "reph" => c.reph = v,
+                    "karorder" => c.karorder = v,
+                    "numpad" => c.numpad = v,
+                    _ => c.fsug = v,
+                };
+                let mut c0 = base.clone();
+                set(&mut c0, start);
+                let mut c1 = base.clone();
+                set(&mut c1, !start);
+                clean_home(&self.home);
+                let mut ctx = match Ctx::new(&c0, &self.home) {
+                    Ok(c) => c,
+                    Err(_) => continue,
+                };
+                self.emit(json!({"ev": "new", "cfg": cfg_json(&c0)}));
+                // the context is used before the update (the option is exercised under the old setting), each word finished
+                for pass in 0..2 {
+                    if pass == 1 {
+                        let o = ctx.update(&c1);
+                        self.emit(json!({"ev": "update", "cfg": cfg_json(&c1), "ongoing": o.ongoing, "panic": o.panic.clone().unwrap_or_default()}));
+                        if o.kind == "panic" { break; }
+                    }
+                    let mut dead = false;
+                    for k in seq.iter().flatten() {
+                        let o = ctx.key(k.0, k.1, 0);
+                        self.emit(merge(json!({"ev": "key", "code": k.0, "mod": k.1, "sel": 0}), Self::ret_fields(&o)));
+                        if o.kind == "panic" { dead = true; break; }
+                    }
+                    if dead { break; }
+                    let o = ctx.finish();
+                    self.emit(json!({"ev": "finish", "ongoing": o.ongoing, "panic": o.panic.clone().unwrap_or_default()}));
+                }
+            }
+        }
+        // the suggestion switch of the phonetic method
+        for start in [false, true] {
+            let c0 = Cfg { layout: "phonetic".into(), psug: start, english: true, smart: true, db: true, ..Default::default() };
+            let c1 = Cfg { psug: !start, ..c0.clone() };
+            clean_home(&self.home);
+            let mut ctx = match Ctx::new(&c0, &self.home) {
+                Ok(c) => c,
+                Err(_) => continue,
+            };
+            self.emit(json!({"ev": "new", "cfg": cfg_json(&c0)}));
+            for pass in 0..2 {
+                if pass == 1 {
+                    let o = ctx.update(&c1);
+                    self.emit(json!({"ev": "update", "cfg": cfg_json(&c1), "ongoing": o.ongoing, "panic": o.panic.clone().unwrap_or_default()}));
+                }
+                for ch in "ami".chars() {
+                    let code = self.keys.code_for_char(ch).unwrap();
+                    let o = ctx.key(code, 0, 0);
+                    self.emit(merge(json!({"ev": "key", "code": code, "mod": 0, "sel": 0}), Self::ret_fields(&o)));
+                }
+                let o = ctx.finish();
+                self.emit(json!({"ev": "finish", "ongoing": o.ongoing, "panic": o.panic.clone().unwrap_or_default()}));
+            }
+        }
+    }
+
     pub fn driver_session(&mut self, rounds: usize, shard: usize, shards: usize) {
         let letters: Vec<u16> = "abcdefghijklmnopqrstuvwxyzABDGHJKNOSTZ".chars().filter_map(|c| self.keys.code_for_char(c)).collect();
         let all: Vec<u16> = self.keys.codes.iter().map(|k| k.code).collect();
         self.long_runs(shard, shards);
         self.key_pairs(shard, shards);
+        self.option_flips(shard, shards);
         for _ in 0..rounds {
             clean_home(&self.home);
             let (mut cfg, j) = self.sess_cfg();
